@@ -104,6 +104,13 @@ REQUIRED_CLASSES = {
     'lisplot:svg-checked': 1, 'lisplot:xml-format': 1, 'lisplot:internal-film-pres': 1, 'lisplot:polyline-points>=1000': 1,
     'svgcheck:depth-mapping-confirmed(>=50%-of-vertices-at-sample-depths)': 1,
     'svgcheck:self-check-passed': 1,
+    # generated-film-pres-plot (vt/props/c19_files.py)
+    'filmpres:svg-checked': 1, 'filmpres:plot-depth-asserted': 1, 'filmpres:scale-positions-asserted': 1, 'filmpres:log-curve': 1,
+    'filmpres:linear-curve': 1, 'filmpres:edges-reversed': 1, 'filmpres:DISA-curve': 1, 'filmpres:film-with-several-curves': 1,
+    'filmpres:curve-on-several-films': 1, 'filmpres:four-track-film': 1, 'filmpres:half-track': 1, 'filmpres:track-T1': 1,
+    'filmpres:track-T2': 1, 'filmpres:track-T3': 1, 'filmpres:track-T23': 1, 'filmpres:mode-SHIF': 1, 'filmpres:mode-GRAD': 1,
+    'filmpres:mode-NB': 1, 'filmpres:mode-WRAP': 1, 'filmpres:mode-X10': 1, 'filmpres:scale-1:20': 1, 'filmpres:scale-1:1000': 1,
+    'filmpres:absent-output-checked': 1, 'filmpres:nonpositive-on-log-curve': 1,
 }
 
 DBL_MAX = Fraction(sys.float_info.max)
